@@ -223,3 +223,16 @@ let register_c19 reg =
       "ok [" ^ show_zlist (render_result false r) ^ "," ^ show_zlist (render_progress false p) ^ "]"
     | _ -> failwith "arity")
 let () = section register_c19
+
+(* ---- C11 *)
+let register_c11 reg =
+  reg "gauss" (function
+    | [vol; freq; ws; hi; lo; rep; table; ticks] ->
+      (match gauss_run (zv vol) (zv freq) (zlist ws) (zv hi) (zv lo) (zv rep) (L.map zpair (lv table)) (zlist ticks) with
+       | Some outs -> "ok " ^ show_zlist outs
+       | None -> "DRIVER-ERROR slot not in the oracle table")
+    | _ -> failwith "arity");
+  reg "gauss_ok" (function
+    | [outs; p; e; tol] -> show_bool (gauss_ok (zlist outs) (natv p) (zv e) (zv tol))
+    | _ -> failwith "arity")
+let () = section register_c11
